@@ -256,7 +256,7 @@ def _huge_exponent(s):
 
 def generate(ctx):
     from props._stores_util import ensure_budget
-    ensure_budget(ctx)
+    ensure_budget(ctx, quick_scale=3.0)
     rng = ctx.rng
     byte_sizes, td_sizes = _tables()
     yield "tables", {}
